@@ -110,6 +110,45 @@ def cases(desc):
             r, r.randint(15, 80), n_ctcs=0,
             group_kinds=("alternative", "or", "mutex", "cardinality"),
             profile=r.choice(["mixed", "deep", "wide"]))
+    # wide groups (size thresholds): one group of k leaves under the root (+ a second level for some), every
+    # kind of cardinality; k<=13 is judged by enumeration, larger k by the DP oracles
+    wide = [9, 10, 11, 12, 13, 16, 25, 40, 57, 58, 64, 80, 100]
+    for wi, k in enumerate(wide):
+        if wi % n != i % len(wide) and (wi + len(wide)) % n != i:
+            continue
+        r = rand.rng(seed, "semops-wide", k)
+        cards = [(1, 1), (1, k), (0, 1), (0, k), (k, k), (2, k - 1), (k // 2, k // 2), (1, 2), (k - 1, k),
+                 (r.randint(0, k // 2), r.randint(k // 2, k)), (3, k // 2 + 1), (0, k - 1), (2, 40 if k > 40 else k - 2)]
+        for mn, mx in cards:
+            if not (0 <= mn <= mx <= k) or mx < 1:
+                continue
+            kids = [{"name": f"G{j}", "rels": []} for j in range(k)]
+            spec = {"root": {"name": "W", "rels": [{"min": mn, "max": mx, "children": kids}]}, "ctcs": []}
+            yield "wide-group", spec
+            if k <= 12:
+                # different subtrees below the members, and a sibling relation
+                spec2 = {"root": {"name": "W", "rels": [
+                    {"min": mn, "max": mx, "children": [dict(c, rels=[{"min": 0, "max": 1, "children": [{"name": c["name"] + "x", "rels": []}]}]
+                                                              if j == 0 else []) for j, c in enumerate(kids)]}]}, "ctcs": []}
+                yield "wide-group", spec2
+            if k >= 16:
+                spec3 = {"root": {"name": "W", "rels": [
+                    {"min": mn, "max": mx, "children": [dict(c, rels=[{"min": 1, "max": 2, "children": [
+                        {"name": c["name"] + "a", "rels": []}, {"name": c["name"] + "b", "rels": []}]}] if j % 7 == 0 else [])
+                        for j, c in enumerate(kids)]},
+                    {"min": 0, "max": 1, "children": [{"name": "Opt", "rels": []}]}]}, "ctcs": []}
+                yield "wide-group", spec3
+    # deep chains (depth thresholds) with mixed mandatory/optional links and a group at the bottom
+    for depth in (12, 20, 40):
+        if depth % n != i:
+            continue
+        root = cur = {"name": "D0", "rels": []}
+        for j in range(1, depth):
+            nxt = {"name": f"D{j}", "rels": []}
+            cur["rels"].append({"min": 1 if j % 3 else 0, "max": 1, "children": [nxt]})
+            cur = nxt
+        cur["rels"].append({"min": 1, "max": 2, "children": [{"name": "La", "rels": []}, {"name": "Lb", "rels": []}]})
+        yield "deep-chain", {"root": root, "ctcs": []}
     if i == 0:
         for name, spec in fama_specs():
             yield "fama:" + name, spec
